@@ -135,7 +135,7 @@ package key
 // ---- C20: encode side of the group wire form -------------------------------------------------------------------------------
 //@ func (*Group).ToProto(g, version) (out)
 //@   props C20
-//@   requires g.Scheme != nil
+//@   requires [C20] g.Scheme != nil
 //@   loop 0: invariant [C20:group-packet-node-scan] -1 <= rangeindex0 && rangeindex0 < len(g.Nodes) && len(ids) == len(g.Nodes) && isnew(ids) && isnew(out) && out != nil && (forall k int {ids[k]} :: 0 <= k && k <= rangeindex0 ==> ids[k] != nil && ids[k].Index == g.Nodes[k].Index && ids[k].Public != nil && ids[k].Public.Signature == g.Nodes[k].Signature)
 //@   ensures [C20:group-packet-carries-the-scalar-terms] out != nil && (0 <= g.Threshold && g.Threshold < 4294967296 ==> out.Threshold == g.Threshold) && (g.GenesisTime >= 0 ==> out.GenesisTime == g.GenesisTime) && (g.TransitionTime >= 0 ==> out.TransitionTime == g.TransitionTime) && out.SchemeID == g.Scheme.Name && out.Metadata != nil
 //@   ensures [C20:group-packet-carries-the-genesis-seed-of-the-group] out.GenesisSeed == g.GenesisSeed
